@@ -859,6 +859,13 @@ class name_BradleyTerry(BallotGenerator):
         current_ranking = list(seed_ballot.ranking)
         num_candidates = len(current_ranking)
 
+        # with fewer than two candidates to order there is a single ranking and no swap to propose
+        if num_candidates < 2:
+            ranking = current_ranking + ([zero_cands] if len(zero_cands) > 0 else [])
+            return PreferenceProfile(
+                ballots=[Ballot(ranking=ranking)] * num_ballots
+            ).condense_ballots()
+
         # presample swap indices
         swap_indices = [
             (j1, j1 + 1)
@@ -1809,6 +1816,10 @@ class slate_BradleyTerry(BallotGenerator):
             for b in self.blocs
             for _ in range(len(self.pref_intervals_by_bloc[bloc][b].non_zero_cands))
         ]
+
+        # with fewer than two positions there is a single ballot type and no swap to propose
+        if len(seed_ballot_type) < 2:
+            return [list(seed_ballot_type) for _ in range(num_ballots)]
 
         ballots = [[-1]] * num_ballots
         accept = 0
